@@ -1356,25 +1356,25 @@ matrix_set_size(matrix *self, PyObject *value, void *closure)
 
       PY_ERR_INT(PyExc_TypeError, "invalid size tuple");
 
-  int m = PyLong_AS_LONG(PyTuple_GET_ITEM(value, 0));
-  int n = PyLong_AS_LONG(PyTuple_GET_ITEM(value, 1));
+  int_t m = PyLong_AS_LONG(PyTuple_GET_ITEM(value, 0));
+  int_t n = PyLong_AS_LONG(PyTuple_GET_ITEM(value, 1));
 #else
   if (!PyInt_Check(PyTuple_GET_ITEM(value, 0)) ||
       !PyInt_Check(PyTuple_GET_ITEM(value, 1)))
       PY_ERR_INT(PyExc_TypeError, "invalid size tuple");
 
-  int m = PyInt_AS_LONG(PyTuple_GET_ITEM(value, 0));
-  int n = PyInt_AS_LONG(PyTuple_GET_ITEM(value, 1));
+  int_t m = PyInt_AS_LONG(PyTuple_GET_ITEM(value, 0));
+  int_t n = PyInt_AS_LONG(PyTuple_GET_ITEM(value, 1));
 #endif
 
   if (m<0 || n<0)
     PY_ERR_INT(PyExc_TypeError, "dimensions must be non-negative");
 
-  if (m*n != MAT_LGT(self))
+  if (m > INT_MAX || n > INT_MAX || m*n != MAT_LGT(self))
     PY_ERR_INT(PyExc_TypeError, "number of elements in matrix cannot change");
 
-  MAT_NROWS(self) = m;
-  MAT_NCOLS(self) = n;
+  MAT_NROWS(self) = (int)m;
+  MAT_NCOLS(self) = (int)n;
 
   return 0;
 }
